@@ -68,6 +68,13 @@ def _unknown(h5):
     h5["events"].create_dataset("peter", data=np.arange(N))
 
 
+def _unknown_named(name):
+    def f(h5):
+        h5["events"][name] = np.arange(h5["events/deform"].shape[0],
+                                       dtype=float)
+    return f
+
+
 def _bad_index(h5):
     h5["events/index"][2] = 7
 
@@ -137,6 +144,17 @@ def corruption_menu(fl=1):
          "Mismatch [imaging] 'roi size y'"),
         ("unknown feature", "unknown", _unknown,
          "Unknown key 'peter'"),
+        # names that almost look like defined features
+        ("unknown feature ml_score_abc1", "unknown",
+         _unknown_named("ml_score_abc1"), "Unknown key 'ml_score_abc1'"),
+        ("unknown feature ml_score_ab", "unknown",
+         _unknown_named("ml_score_ab"), "Unknown key 'ml_score_ab'"),
+        ("unknown feature area_um2", "unknown",
+         _unknown_named("area_um2"), "Unknown key 'area_um2'"),
+        ("unknown feature userdef10", "unknown",
+         _unknown_named("userdef10"), "Unknown key 'userdef10'"),
+        ("unknown feature fl4_max", "unknown",
+         _unknown_named("fl4_max"), "Unknown key 'fl4_max'"),
         ("index not enumerating", "index", _bad_index,
          "index feature is not enumerated correctly"),
         ("index zero-based", "index", _index_as(lambda a: a - 1),
@@ -471,7 +489,10 @@ def _corrupt_case(args):
                                 CK, "copy-gets-other-violations", case,
                                 f"{task} of a file with '{names[0]}': "
                                 f"{sorted(set(viol) ^ set(v2))} differ",
-                                dict(tags, task=task, what=names[0])))
+                                dict(tags, task=task,
+                                     what="unknown feature" if menu[
+                                         combo[0]][1] == "unknown"
+                                     else names[0])))
                     except BaseException as e:
                         out.append(violation(
                             CK, "copy-failed", case,
